@@ -41,7 +41,7 @@ void check_eval(const std::string &k, const Spline<Real, o> &s, const std::vecto
 template <size_t o>
 void eval_case(size_t n, std::pair<size_t, size_t> w) {
   auto &E = Engine::get();
-  auto g = gridvars(n);
+  auto g = gridpoints(n);
   Grid<Real> grid(g);
   auto s = mkspline<o>(grid, w.first, w.second, "c");
   Real x = Real::var("x");
@@ -74,7 +74,7 @@ void eval_case(size_t n, std::pair<size_t, size_t> w) {
 // in-place change of the object, then the evaluation under test
 template <size_t o>
 void history_case(size_t n, std::pair<size_t, size_t> w, std::pair<size_t, size_t> wt, int kind) {
-  auto g = gridvars(n);
+  auto g = gridpoints(n);
   Grid<Real> grid(g);
   auto s = mkspline<o>(grid, w.first, w.second, "c");
   auto t = mkspline<o>(grid, wt.first, wt.second, "t");
@@ -112,4 +112,18 @@ void add(std::vector<Case> &cases) {
         }
   if constexpr (o > 0) add<o - 1>(cases);
 }
+#ifdef FIXED_GRID
+template <size_t o>
+void add_high(std::vector<Case> &cases) {
+  for (size_t n = 2; n <= MAXN; n++)
+    for (auto w : windows(n)) cases.push_back({"eval-high/o" + std::to_string(o) + "/n" + std::to_string(n) + "/w" + W(w), [=] { eval_case<o>(n, w); }});
+}
+void hx_cases(std::vector<Case> &cases) {
+  add_high<6>(cases);
+  add_high<8>(cases);
+  add_high<10>(cases);
+  add_high<20>(cases);
+}
+#else
 void hx_cases(std::vector<Case> &cases) { add<MAXO>(cases); }
+#endif
